@@ -383,6 +383,14 @@ def install(w):
             it.guard(v.cls != 1, ValueError, node, "SAFE-Value")
             it.guard(v.cls == 0, OverflowError, node, "SAFE-Value")
             return VInt(trunc(v.val))
+        if isinstance(v, VStr) and rest:
+            # int(text, base): ValueError or some integer; which texts a base accepts is not modelled
+            # (it is more than the digit strings of the base: sign, blanks, underscores, prefixes,
+            # non-ASCII digits)
+            use("int(str, base): ValueError, or an integer about which nothing is known")
+            if it.choose(2, "int(str, base)") == 1:
+                it.throw(ValueError, node, "SAFE-Value")
+            return it.fresh_int("int_base")
         if isinstance(v, VStr):
             use("int(str): a function of the text - ValueError exactly when is_int_str(text) is "
                 "false, else int_of_str(text) (both uninterpreted: no claim about which texts parse)")
